@@ -25,12 +25,27 @@ PARTIAL = [
     (('humantime::format_rfc3339', 'humantime::format_rfc3339_seconds', 'humantime::format_rfc3339_millis', 'humantime::format_rfc3339_micros', 'humantime::format_rfc3339_nanos'), None, (0,)),
     (('ops::Mul::mul', 'ops::Div::div', 'Duration::from_secs_f64', 'Duration::from_secs_f32', 'Duration::mul_f64', 'Duration::mul_f32'), ('std::time::Duration', None), (0, 1)),
     (('ops::Index::index', 'ops::IndexMut::index_mut'), None, (1,)),
+    # slicing a string panics when a bound is not on a character boundary: the content matters, not only the bound
+    (('ops::Index::index', 'ops::IndexMut::index_mut', 'str::split_at', 'str::split_at_mut', 'String::truncate', 'String::split_off', 'String::remove', 'String::insert', 'String::insert_str',
+      'String::drain', 'String::replace_range'), ('str', 'std::string::String', 'String'), (0,)),
+    (('slice::split_at', 'slice::split_at_mut', 'Vec::split_off', 'Vec::remove', 'Vec::swap_remove', 'Vec::insert', 'Vec::drain', 'slice::copy_within', 'slice::swap', 'slice::chunks',
+      'slice::chunks_exact', 'slice::windows', 'Vec::with_capacity', 'HashMap::with_capacity', 'HashMap::with_capacity_and_hasher', 'Vec::reserve', 'HashMap::reserve',
+      'String::with_capacity', 'VecDeque::with_capacity'), None, (0, 1)),
+    (('slice::copy_from_slice', 'slice::clone_from_slice'), None, (0, 1)),   # panics unless both lengths are equal
     (('Duration::new',), None, (0, 1)),       # panics when the nanosecond carry overflows the seconds
 ]
 TIMER_RANGE_MS = 1 << 35   # tokio-util's DelayQueue wheel spans 2^36 ms measured from the queue's creation; half of it leaves room for the queue's age
 PASS_THROUGH = ('Instant::duration_since', 'Instant::saturating_duration_since', 'Instant::checked_duration_since', 'SystemTime::duration_since', 'TimeUntil::time_until',
                 'ops::Add::add', 'ops::Sub::sub', 'ops::Mul::mul', 'Duration::saturating_add', 'Duration::saturating_sub', 'Duration::saturating_mul', 'Duration::as_secs', 'Duration::as_millis',
-                'Duration::from_secs', 'Duration::from_millis', 'Duration::new', 'Instant::elapsed', 'Duration::checked_add', 'Instant::checked_add', 'Instant::checked_sub')
+                'Duration::from_secs', 'Duration::from_millis', 'Duration::new', 'Instant::elapsed', 'Duration::checked_add', 'Instant::checked_add', 'Instant::checked_sub',
+                'Vec::len', 'slice::len', 'str::len', 'String::len', 'VecDeque::len', 'HashMap::len', 'Vec::as_slice', 'Vec::as_mut_slice', 'String::as_str', 'String::as_bytes', 'str::as_bytes',
+                'ops::Deref::deref', 'ops::DerefMut::deref_mut', 'ops::Index::index', 'ops::IndexMut::index_mut', 'convert::AsRef::as_ref', 'borrow::Borrow::borrow')
+# Option / Result / reference adaptors: the result is (part of) the receiver
+ADAPTORS = ('Result::err', 'Result::ok', 'Result::as_ref', 'Result::as_mut', 'Option::as_ref', 'Option::as_mut', 'Option::as_deref', 'Result::as_deref', 'Option::take', 'Option::cloned', 'Option::copied',
+            'Option::unwrap_or_default', 'Result::unwrap_or_default', 'Option::ok_or', 'Option::ok_or_else', 'Option::flatten', 'Option::or', 'Option::xor', 'Option::zip', 'Result::iter', 'Option::iter',
+            'borrow::ToOwned::to_owned', 'string::ToString::to_string', 'String::from', 'str::to_string', 'str::to_owned', 'str::trim', 'str::trim_start', 'str::trim_end', 'String::into_bytes',
+            'String::into_boxed_str', 'Vec::into_boxed_slice', 'slice::to_vec', 'slice::iter', 'Vec::iter', 'mem::take', 'mem::replace', 'Box::new', 'Arc::new', 'Rc::new', 'Cow::into_owned', 'Cow::as_ref')
+GENERIC_PASS = True
 SANITISERS = MINLIKE + ('Duration::min',)
 
 
@@ -85,7 +100,7 @@ class Taint:
                 if src:
                     res = src
                     break
-                if callee_is(t, *PASS_THROUGH):
+                if callee_is(t, *PASS_THROUGH) or (GENERIC_PASS and self.F.callee_fn(t) is None and callee_is(t, *ADAPTORS)):
                     for a in P.args_of(r):
                         sub = self.tainted(a, depth - 1)
                         if sub:
@@ -103,6 +118,26 @@ class Taint:
                     break
                 continue
             if ru[0] == 'agg':
+                # a value built from parts (a range, a tuple): tainted if a part is
+                rv_ = P._agg_rv(ru)
+                fn_ = self.F.fns.get(ru[1])
+                if fn_ is not None and rv_.get('adt') not in ('closure', 'coroutine'):
+                    for op_ in rv_.get('ops') or ():
+                        sub = self.tainted(P.operand(fn_, op_, at=ru[2]), depth - 1)
+                        if sub:
+                            res = sub
+                            break
+                if res:
+                    break
+                continue
+            if ru[0] in ('un', 'len', 'cast', 'unop', 'ptrmeta'):
+                for a in ru[1:]:
+                    if isinstance(a, tuple):
+                        sub = self.tainted(a, depth - 1)
+                        if sub:
+                            res = sub
+                if res:
+                    break
                 continue
             src = self.source(r)
             if src:
